@@ -75,4 +75,27 @@ theorem parseText_show (T : Table) (S : Syms) (generic : List String) (exc : Lis
     exact printable_of_rowOk T exc generic hT i row hr (kindsOk_of_inRange _ _ hin)
   simp only [parseText, parseLines_show hS' T generic is hlex, assemble_print T S exc is hpr]
 
+/-- the same with the row condition per instruction instead of for the whole table: in a table
+where some class is shadowed (a later row re-uses its mnemonic, as a user flavour may do), every
+instruction whose own row still satisfies `rowTextOk` — the row the name map resolves to — is
+printed and parsed back unchanged -/
+theorem parseText_show_rows (T : Table) (S : Syms) (generic : List String) (exc : List (String × Nat))
+    (hS : symsOk S = true) (is : List Instr)
+    (h : ∀ i ∈ is, ∃ row, rowOf T i.cls = some row ∧ rowTextOk T exc generic row = true ∧
+      InRangeOps row.shape i.ops = true) :
+    parseText T S generic exc (is.map (showLine T S)) = .ok is := by
+  have hS' := sok_of S hS
+  have hlex : ∀ i ∈ is, Lexable T S generic i := by
+    intro i hi
+    obtain ⟨row, hr, hrow, hin⟩ := h i hi
+    simp only [rowTextOk, Bool.and_eq_true, beq_iff_eq, Bool.not_eq_true', List.all_eq_true] at hrow
+    refine ⟨row, hr, ?_, hrow.2, hrow.1.1.2, banksOk_of_inRange _ hS'.nbanks _ _ hin⟩
+    intro hnil; simp [hnil] at hrow
+  have hpr : ∀ i ∈ is, Printable T exc i := by
+    intro i hi
+    obtain ⟨row, hr, hrow, hin⟩ := h i hi
+    simp only [rowTextOk, Bool.and_eq_true, beq_iff_eq] at hrow
+    exact ⟨row, hr, hrow.1.1.1.1.1, hrow.1.1.1.2, kindsOk_of_inRange _ _ hin⟩
+  simp only [parseText, parseLines_show hS' T generic is hlex, assemble_print T S exc is hpr]
+
 end NQ.Text
